@@ -246,6 +246,7 @@ def r5_linear(ctx):
 
 
 def run(ctx):
+    ctx.guard("C18.REQ", "requirements are checked", lambda: __import__("initspec").check_requires(ctx, "C18"))
     ctx.guard("C18.INIT", "init installs the configured state", lambda: __import__("initspec").check_for(ctx, "C18"))
     ctx.guard("C18.K17", "constructor fidelity", lambda: __import__("ctor").check_for(ctx, "C18", 27))
     ctx.guard("C18.R1", "velocity update", lambda: r1_velocity_update(ctx))
